@@ -34,9 +34,10 @@ fn main() {
     let mut shapes: Vec<(Vec<usize>, usize)> = Vec::new();
     for last in 0..=3usize {
         shapes.push((vec![], last));
-        for a in 1..=3usize {
+        // (a non-final value may be EMPTY: it must not be taken for the end of the message)
+        for a in 0..=3usize {
             shapes.push((vec![a], last));
-            for b in 1..=3usize { shapes.push((vec![a, b], last)); }
+            for b in 0..=3usize { shapes.push((vec![a, b], last)); }
         }
     }
     for (nonfinal, last) in &shapes {
